@@ -5122,6 +5122,18 @@ func deleteGatewayServiceTopologyMapping(tx WriteTxn, idx uint64, gs *structs.Ga
 		return nil
 	}
 
+	// The mapping is per gateway and service, a gateway-services entry is per listener port: keep
+	// the mapping while another listener of the gateway still routes to the service.
+	remaining, err := tx.Get(tableGatewayServices, indexGateway, gs.Gateway)
+	if err != nil {
+		return fmt.Errorf("failed gateway services lookup: %s", err)
+	}
+	for raw := remaining.Next(); raw != nil; raw = remaining.Next() {
+		if other, ok := raw.(*structs.GatewayService); ok && other.Service.Matches(gs.Service) && other.Port != gs.Port {
+			return nil
+		}
+	}
+
 	if _, err := tx.DeleteAll(tableMeshTopology, indexID, gs.Service, gs.Gateway); err != nil {
 		return fmt.Errorf("failed to truncate %s table: %v", tableMeshTopology, err)
 	}
